@@ -143,7 +143,7 @@ func (w *Walker) correlatedConds(c *FCtx) []*Atom {
 	// conditions of a diamond whose join defines a phi (the two arms compute different values of one variable)
 	for _, b := range c.Fn.Blocks {
 		ifi, ok := b.Instrs[len(b.Instrs)-1].(*ssa.If)
-		if !ok || len(res) >= 2 {
+		if !ok || len(res) >= 3 {
 			continue
 		}
 		a := atomOf(c.Term(ifi.Cond), "")
@@ -154,7 +154,7 @@ func (w *Walker) correlatedConds(c *FCtx) []*Atom {
 		if a.Neg {
 			pos = a.Negate()
 		}
-		if pos.Pred != "eq" || count[pos.Key()] >= 2 || count[pos.Key()] == 0 {
+		if (pos.Pred != "eq" && pos.Pred != "truth") || count[pos.Key()] >= 2 || count[pos.Key()] == 0 {
 			continue
 		}
 		if !diamondWithPhi(b) {
@@ -162,8 +162,8 @@ func (w *Walker) correlatedConds(c *FCtx) []*Atom {
 		}
 		res = append(res, first[pos.Key()])
 	}
-	if len(res) > 2 {
-		res = res[:2]
+	if len(res) > 3 {
+		res = res[:3]
 	}
 	return res
 }
@@ -418,7 +418,7 @@ func diamondWithPhi(b *ssa.BasicBlock) bool {
 	}
 	r0, r1 := reach(b.Succs[0]), reach(b.Succs[1])
 	for j := range r0 {
-		if !r1[j] || !b.Dominates(j) || j == b {
+		if !r1[j] || j == b {
 			continue
 		}
 		for _, in := range j.Instrs {
